@@ -15,7 +15,8 @@ EXTENDS Ownership, TLC, Json
 
 CONSTANTS MaxAbs,      \* bound on stored values (in-place writes are +1 / bitwise not)
           GenDepth,    \* behaviours of this length are printed by the GEN configuration
-          WithStreams  \* explore the C stream interface too (off in the quick model to keep it small)
+          WithStreams, \* explore the C stream interface too (off in the quick model to keep it small)
+          WithNested   \* explore arrays of nested types over two custom regions (dictionary: keys + values)
 
 VARIABLES st, hist
 
@@ -43,6 +44,12 @@ A_New ==
        /\ LET r == Least(FreeRegions) x == Least(FreeHandles) IN
           Do(New(st, r, kind, bits, IF bits THEN BitsInit ELSE ValuesInit, RegionSize, x),
              [op |-> "new", r |-> r, kind |-> kind, bits |-> bits, x |-> x])
+
+(* a nested array (say a dictionary: keys region + values region)            *)
+A_NewNested ==
+  /\ WithNested /\ Cardinality(FreeRegions) >= 2 /\ FreeHandles # {}
+  /\ LET r1 == Least(FreeRegions) r2 == Least(FreeRegions \ {r1}) x == Least(FreeHandles)
+     IN Do(NewNested(st, <<r1, r2>>, x, <<7, 8>>), [op |-> "newn", rs |-> <<r1, r2>>, x |-> x])
 
 A_Clone ==
   /\ FreeHandles # {}
@@ -83,6 +90,7 @@ A_IntoVec ==
 NullCopyRegion(x) == IF NeedsNullCopy(st, x) THEN Least(FreeRegions) ELSE 0
 A_ArrayMut ==
   \E x \in LiveH : \E validOnly \in BOOLEAN : st.hd[x].kind = "array" /\
+     ~st.hd[x].nested /\
      IF ArrayInPlaceOK(st, x)
      THEN Do(ArrayMutate(st, x, validOnly, RegionSize), [op |-> IF validOnly THEN "try_unary_mut" ELSE "unary_mut", x |-> x, nr |-> 0])
      ELSE /\ (NeedsNullCopy(st, x) => FreeRegions # {})
@@ -91,7 +99,7 @@ A_ArrayMut ==
 
 (* try_unary_mut whose closure fails: the uniquely owned array is consumed   *)
 A_TryErr ==
-  \E x \in LiveH : st.hd[x].kind = "array" /\
+  \E x \in LiveH : st.hd[x].kind = "array" /\ ~st.hd[x].nested /\
      IF ArrayInPlaceOK(st, x)
      THEN Do(Drop(st, x), [op |-> "try_unary_mut_err", x |-> x, nr |-> 0])
      ELSE /\ (NeedsNullCopy(st, x) => FreeRegions # {})
@@ -105,7 +113,7 @@ A_Xor ==
      ELSE /\ FreeRegions # {}
           /\ LET nr == Least(FreeRegions) IN Do(XorCopy(st, x, nr, RegionSize), [op |-> "xor", x |-> x, nr |-> nr])
 
-A_Claim == \E x \in LiveH : st.hd[x].kind \in {"buffer", "array"} /\ Do(Claim(st, x), [op |-> "claim", x |-> x])
+A_Claim == \E x \in LiveH : st.hd[x].kind \in {"buffer", "array"} /\ ~st.hd[x].nested /\ Do(Claim(st, x), [op |-> "claim", x |-> x])
 
 A_Export ==
   /\ FreeRegions # {} /\ FreeHandles # {}
@@ -126,7 +134,7 @@ A_StreamNext ==
        LET y == Least(FreeHandles) nr == Least(FreeRegions)
        IN Do(StreamNext(st, s, y, nr), [op |-> "stream_next", s |-> s, y |-> y, nr |-> nr])
 
-Next == \/ A_New \/ A_Clone \/ A_Slice \/ A_Wrap \/ A_WrapN \/ A_Drop \/ A_IntoMutable \/ A_IntoVec
+Next == \/ A_New \/ A_NewNested \/ A_Clone \/ A_Slice \/ A_Wrap \/ A_WrapN \/ A_Drop \/ A_IntoMutable \/ A_IntoVec
         \/ A_ArrayMut \/ A_TryErr \/ A_Xor \/ A_Claim \/ A_Export \/ A_Import \/ A_StreamExport \/ A_StreamNext
 
 Spec == Init /\ [][Next]_vars
